@@ -102,6 +102,80 @@ def run(F, floor=12):
                            "%s: the starting value `%s` is passed to `%s` as its parameter `%s`, which is a specification, "
                            "not a starting value — the result would follow the guess instead of the specified quantity"
                            % (fn, b.lname(g), cname, pn))
+    # (b) forwarded guesses: an optional quantity parameter (whatever its name) that a function hands to a starting-value
+    #     parameter of a callee is a guess; in that function it may be forwarded, tested for presence and unpacked, nothing else
+    #     (`PhaseDiagram::pure(.., critical_temperature, ..)` forwards it to `State::critical_point`; laying out the temperature
+    #     grid up to `critical_temperature.unwrap_or(sc.temperature)` makes the diagram depend on the estimate)
+    nfw = 0
+    for b in F.bodies:
+        if b.is_closure() or "::tests::" in b.path or not b.path.startswith("feos_core::") or "::python::" in b.path:
+            continue
+        cands = {}
+        for i in range(1, b["arg_count"] + 1):
+            ty = b.lty(i)["s"]
+            if ty.startswith(("std::option::Option<", "core::option::Option<")) and _qty(ty) and not (b.lname(i) or "").startswith("initial_"):
+                cands[i] = _qty(ty)
+        if not cands:
+            continue
+        defs = Defs(b)
+        for p_, q in cands.items():
+            derived = {p_}
+            forwarded = []
+            other = []
+            changed = True
+            while changed:
+                changed = False
+                for bi, si, st in b.stmts():
+                    rv = st["rv"]
+                    ops = []
+                    if rv["k"] in ("use", "cast"):
+                        ops = [rv["op"]]
+                    elif rv["k"] in ("ref", "discr"):
+                        ops = [{"k": "copy", "place": rv["place"]}]
+                    hit = [o for o in ops if o.get("k") in ("copy", "move") and o["place"]["l"] in derived]
+                    if hit and rv["k"] != "discr" and not st["place"]["p"] and st["place"]["l"] not in derived:
+                        derived.add(st["place"]["l"])
+                        changed = True
+                for bi, t in b.calls():
+                    if callee(t)[2] in COMBINATORS and any(a.get("k") in ("copy", "move") and a["place"]["l"] in derived for a in t["args"]) \
+                            and not t["dest"]["p"] and t["dest"]["l"] not in derived:
+                        derived.add(t["dest"]["l"])
+                        changed = True
+            for bi, t in b.calls():
+                nm = callee(t)[2]
+                for ai, a in enumerate(t["args"]):
+                    if a.get("k") not in ("copy", "move") or a["place"]["l"] not in derived:
+                        continue
+                    if nm in COMBINATORS or nm in ("is_some", "is_none", "drop"):
+                        continue
+                    cb = F.callee_body(t)
+                    pn = (cb.lname(ai + 1) or "") if cb is not None and cb["arg_count"] == len(t["args"]) else ""
+                    if "init" in pn or "guess" in pn:
+                        forwarded.append((t, pn))
+                    else:
+                        other.append((t["span"], "%s(.. %s ..)" % (nm, pn or "#%d" % (ai + 1))))
+            for bi, si, st in b.stmts():
+                rv = st["rv"]
+                if rv["k"] in ("binop", "unop", "agg"):
+                    ops = [rv.get("a"), rv.get("b")] if rv["k"] != "agg" else rv["ops"]
+                    if rv["k"] == "agg" and rv["kind"].get("variant") in ("Some", "Ok"):
+                        continue
+                    if any(o and o.get("k") in ("copy", "move") and o["place"]["l"] in derived for o in ops):
+                        other.append((st.get("span", b.file_line()), rv["k"]))
+            if not forwarded:
+                continue
+            nfw += 1
+            fn = b.path.split("::")[-1]
+            key = "guessspec|forwarded|%s|%s" % (fn, b.lname(p_))
+            if other:
+                r.inst(key, other[0][0], "violation")
+                r.fail(key, other[0][0],
+                       "%s: `%s` is only a starting value (it is forwarded to %s as `%s`), but it is also used in %s — the result "
+                       "depends on the estimate instead of on the converged quantity" % (
+                           fn, b.lname(p_), callee(forwarded[0][0])[2], forwarded[0][1], other[0][1]))
+            else:
+                r.inst(key, forwarded[0][0]["span"], "ok", forwarded_to=callee(forwarded[0][0])[2])
+    r.floor("R50 forwarded optional guesses", nfw, 9)
     r.floor("R50 functions with an initial_* quantity parameter", nfun, floor)
     r.floor("R50 starting values handed on", n, 8)
     return r
